@@ -7677,6 +7677,11 @@ SRCG_UNITS = [
       ("OUI", "__init__:int", {"oui": "int", "self.*": "_value,records"}),
       ("IAB", "__init__:int", {"iab": "int", "strict": "bool", "self.*": "_value,record"})]),
 ]
+SRCG_UNITS.append(
+    # C19: netaddr/eui/ieee.py load_index.  `index` (an index dict, type eindex) is changed in place: the function answers the new
+    # dict; `fp` = the index file as the list of its lines; csv.reader is the Section variable CSV_READER (decoded lines -> rows)
+    ("netaddr/eui/ieee.py", "pysrc_ieeeg_gen.v", "ieee_", " Base.PyStr Model.SrcPreludeStr Model.SrcPreludeSRCE Model.SrcPreludeG",
+     [(None, "load_index", {"index": "eindex", "fp": "list str"})]))
 # the constant keys of a registration record, in the order of the `orec` tuple (= the dict literal the class writes), per class
 SRCG_REC_KEYS = {"OUI": ("idx", "oui", "org", "address", "offset", "size"), "IAB": ("idx", "iab", "org", "address", "offset", "size")}
 SRCG_REC_TYPES = ("int", "str", "str", ("list", "str"), "int", "int")
@@ -7691,7 +7696,7 @@ SRCG_IDCLASS = {"oui": "OUI", "iab": "IAB"}
 COQTY.update(SRCG_TYPES)
 SRCG_RESERVED = set("irow ikeyview IKNet IKRange IKAddr py_ikey_view sdict py_sd_new py_sd_setdefault py_sd_append IANA_INFO "
                     "py_truthy py_fmt_oct py_fmt_hex py_index string append eindex py_eidx_mem py_eidx_get OUI_INDEX IAB_INDEX REGISTRY_FILE "
-                    "py_pair_of_list py_rec_set".split())
+                    "py_pair_of_list py_rec_set CSV_READER py_map_og py_triple_of_list py_eidx_setdefault py_eidx_append".split())
 UNIT_PREAMBLE["pysrc_iana_gen.v"] = (
     "(* IANA_INFO[name] for the four dictionaries the module creates: the rows (key object, record) in insertion order *)\n"
     "Section WithTable.\nVariable IANA_INFO : string -> list irow.\n")
@@ -7701,6 +7706,10 @@ UNIT_PREAMBLE["pysrc_euig_gen.v"] = (
     "   REGISTRY_FILE name offset size = what `fh.seek(offset); fh.read(size).decode('UTF-8')` answers on the package file `name` *)\n"
     "Section WithRegistry.\nVariable OUI_INDEX IAB_INDEX : eindex.\nVariable REGISTRY_FILE : string -> Z -> Z -> string.\n")
 UNIT_POSTAMBLE["pysrc_euig_gen.v"] = "\nEnd WithRegistry.\n"
+UNIT_PREAMBLE["pysrc_ieeeg_gen.v"] = (
+    "(* csv.reader over the decoded lines of an index file: the rows it yields (csv.Error and UnicodeDecodeError are not modelled) *)\n"
+    "Section WithCsv.\nVariable CSV_READER : list string -> list (list string).\n")
+UNIT_POSTAMBLE["pysrc_ieeeg_gen.v"] = "\nEnd WithCsv.\n"
 _is_value_before_SRCG = is_value
 
 
@@ -7735,7 +7744,8 @@ class SrcgPrepare(ast.NodeTransformer):
 
     def __init__(self, fn, f):
         self.fn, self.nitems = fn, 0
-        self.sdicts = {st.targets[0].id for st in ast.walk(f) if isinstance(st, ast.Assign) and len(st.targets) == 1
+        self.outparams = [x for x, t in getattr(fn, "g_types", {}).items() if t == "eindex" and x in [a.arg for a in f.args.args]]
+        self.sdicts = set(self.outparams) | {st.targets[0].id for st in ast.walk(f) if isinstance(st, ast.Assign) and len(st.targets) == 1
                        and isinstance(st.targets[0], ast.Name) and isinstance(st.value, ast.Dict) and not st.value.keys}
 
     def visit_Assign(self, st):
@@ -7760,6 +7770,39 @@ class SrcgPrepare(ast.NodeTransformer):
             return ast.copy_location(ast.Assign(targets=[ast.copy_location(ast.Name(id=d.id, ctx=ast.Store()), d)],
                                                 value=srcg_pseudo("__g_sd_append", [d, v.func.value.slice, v.args[0]], v)), st)
         return self.generic_visit(st)
+
+    def visit_Try(self, st):
+        """try: BODY / finally: <parameter>.close() -> BODY (closing the file has no effect the model sees; an exception of BODY
+        leaves the function either way)"""
+        fb = st.finalbody[0].value if len(st.finalbody) == 1 and isinstance(st.finalbody[0], ast.Expr) else None
+        if (not st.handlers and not st.orelse and isinstance(fb, ast.Call) and isinstance(fb.func, ast.Attribute) and fb.func.attr == "close"
+                and not fb.args and not fb.keywords and isinstance(fb.func.value, ast.Name)
+                and getattr(self.fn, "g_types", {}).get(fb.func.value.id) == "list str"):
+            return [self.visit(x) for x in st.body]
+        return self.generic_visit(st)
+
+    def visit_Call(self, n):
+        n = self.generic_visit(n)
+        a = n.args[0] if len(n.args) == 1 and not n.keywords else None
+        if (dotted(n.func) == "_csv.reader" and isinstance(a, ast.ListComp) and len(a.generators) == 1 and not a.generators[0].ifs
+                and isinstance(a.generators[0].target, ast.Name) and isinstance(a.generators[0].iter, ast.Name)
+                and getattr(self.fn, "g_types", {}).get(a.generators[0].iter.id) == "list str"
+                and ast.dump(a.elt) == ast.dump(ast.parse("%s.decode('UTF-8')" % a.generators[0].target.id, mode="eval").body)):
+            # _csv.reader([x.decode('UTF-8') for x in fp]) for the file fp (its lines): the rows of the decoded lines
+            if not FnF.plain_import(self.fn, "_csv", "csv"):
+                bad(n, "_csv is not bound by `import csv as _csv` alone")
+            return srcg_pseudo("__g_csv_rows", [a.generators[0].iter], n)
+        return n
+
+    def visit_FunctionDef(self, f):
+        f = self.generic_visit(f)
+        if self.outparams:                    # a dict parameter changed in place: the function answers the new dict(s)
+            if any(isinstance(n, ast.Return) for n in ast.walk(f)) or len(self.outparams) != 1:
+                bad(f, "a function that changes a dict parameter in place and returns")
+            ret = ast.copy_location(ast.Return(value=ast.copy_location(ast.Name(id=self.outparams[0], ctx=ast.Load()), f.body[-1])), f.body[-1])
+            ret.lineno = ret.end_lineno = f.end_lineno
+            f.body.append(ret)
+        return f
 
     def visit_For(self, st):
         st = self.generic_visit(st)
@@ -8127,8 +8170,28 @@ class FnG(FnE):
             CURFILE.pop()
         return name
 
+    def listcomp(self, node, env):
+        g = node.generators
+        if (len(g) == 1 and not g[0].ifs and not g[0].is_async and isinstance(g[0].target, ast.Name) and g[0].target.id not in env
+                and self.builtin_call(node.elt, "int", env, 1) and isinstance(node.elt.args[0], ast.Name)
+                and node.elt.args[0].id == g[0].target.id):
+            ty, t = self.ex(g[0].iter, env)              # [int(x) for x in xs] for a list of text: ValueError at the first bad item
+            if is_list(ty) and ty[1].find().t == "str":
+                return ("out", ("list", Cell("int")), "(py_map_og (py_int_o 10) %s)" % t)
+            bad(node, "[int(x) for x in xs] over %s" % show(ty))
+        return super().listcomp(node, env)
+
     def assign(self, s, env, go):
         tgt = s.targets[0] if isinstance(s, ast.Assign) and len(s.targets) == 1 else None
+        if isinstance(tgt, ast.Tuple) and len(tgt.elts) == 3 and all(isinstance(x, ast.Name) for x in tgt.elts) and isinstance(s.value, ast.ListComp):
+            r = self.rhs(s.value, env)                   # (a, b, c) = <list of ints>: ValueError unless it has three items
+            if r[0] == "out" and is_list(r[1]) and r[1][1].find().t == "int":
+                pre, names = self.take_pre(), []
+                for x in tgt.elts:
+                    cn, env = self.bind_local(x, x.id, "int", env, s.value)
+                    names.append(cn)
+                return self.wrap(pre, ("bind", pattern(names), "(do h0 <- %s; py_triple_of_list h0)" % r[2], go(env)))
+            bad(s, "unpacking of %s" % show(r[1] if r[0] == "out" else r[0]))
         if isinstance(tgt, ast.Tuple) and len(tgt.elts) == 2 and all(isinstance(x, ast.Name) for x in tgt.elts):
             snap, pre0 = self.snapshot(), list(self.pre)
             r = self.rhs(s.value, env)
@@ -8165,6 +8228,18 @@ class FnG(FnE):
         name = f.id if isinstance(f, ast.Name) else None
         if name == "__g_sd_new":
             return ("sdict", "py_sd_new")
+        if name == "__g_csv_rows":
+            ty, t = self.ex(node.args[0], env)
+            unify(node, ty, ("list", Cell("str")), "lines handed to csv.reader")
+            return (("list", Cell(("list", Cell("str")))), "(CSV_READER %s)" % t)
+        if name in ("__g_sd_setdefault", "__g_sd_append") and self.ex(node.args[0], env)[0] == "eindex":
+            (_, d), kk = self.ex(node.args[0], env), self.int_(node.args[1], env)
+            if name == "__g_sd_setdefault":                 # index.setdefault(k, [])
+                return ("eindex", "(py_eidx_setdefault %s %s)" % (d, kk))
+            x = node.args[2]                                 # index[k].append((a, b)): KeyError without k
+            if not (isinstance(x, ast.Tuple) and len(x.elts) == 2):
+                bad(node, "index[k].append(x) for x other than a pair")
+            return ("out", "eindex", "(py_eidx_append %s %s (%s, %s))" % (d, kk, self.int_(x.elts[0], env), self.int_(x.elts[1], env)))
         if name in ("__g_sd_setdefault", "__g_sd_append"):
             (td, d), (tk, kk) = self.ex(node.args[0], env), self.ex(node.args[1], env)
             if td != "sdict" or tk != "str":
